@@ -4,7 +4,8 @@ A dimensionally homogeneous computation is covariant under a change of units.  D
 on every method branch, that each operation on the way to the result is homogeneous and that
 the result has unit length¹·amplitude⁰·count⁰ (AFFINE: grid-boundary coordinates only enter
 as differences, so translating the grid changes nothing).  EXHAUST/VOLUME/PEAK are the
-structural clauses (per-axis wave vectors of the spectrum, method dispatch, box volume per droplet over the free axes, peak search
+structural clauses; FRAME/MERGE/FLOW/THRESH: the droplet count inherits the cell-vs-length discipline of the Cartesian locator and
+the relative threshold rules (per-axis wave vectors of the spectrum, method dispatch, box volume per droplet over the free axes, peak search
 that skips k = 0 consistently).  The structure factor's own units are decided as in C16.
 """
 
@@ -23,6 +24,22 @@ def check(ctx: Ctx):
         if f.rule in ("DIM", "AFFINE", "INDEXAGREE"):
             ctx.findings.append(f)
     ctx.functions |= sub.functions
+    # the droplet count: unit discipline of the Cartesian locator (cells vs lengths) and the relative threshold rules
+    from ..rules import locate
+    from . import c18
+
+    sub2 = Ctx(ctx.model, ctx.prop, ctx.tier)
+    locate.check_frames(sub2)
+    locate.check_cartesian_flow(sub2)
+    locate.check_merge(sub2)
+    c18.check_thresholds(sub2)
+    for f in sub2.findings:
+        if f.rule in ("FRAME", "FLOW", "MERGE", "THRESH", "GUARDSHAPE"):
+            ctx.findings.append(f)
+    ctx.functions |= sub2.functions
+    ctx.expect("FRAME", 4)
+    ctx.expect("MERGE", 6)
+    ctx.expect("THRESH", 5)
     seen = spectrum.check_ls_units(ctx)
     spectrum.check_ls_structure(ctx)
     ctx.expect("DIM", 6)
